@@ -274,6 +274,60 @@ def doc_mark(toks, cur, anchored, a, occ):
     return rows[-occ - 1] if -occ <= len(rows) else None
 
 
+# ---- navigation templates: the anchor text repeats within a line and inside other words ----------
+NAV_BASE = ['GRID', 'KEY', 'LOAD']
+NAV_SHORT = {'GRID': ['ID', 'RI', 'GR'], 'KEY': ['K', 'EY'], 'LOAD': ['AD', 'LO']}
+
+
+def nav_carriers(w):
+    return [w, w, w, w + 'S', 'x' + w, w + w, w + '2', w + '_' + w]
+
+
+def build_nav_template(rng, dg):
+    """Lines in which a keyword occurs several times (as a field of its own, repeated, or inside
+    another word). Returns (lines, toks, words used)."""
+    pool = sep_pool(dg)
+    ws_ok = (dg is None) or (' ' in dg)
+    words = rng.sample(NAV_BASE, rng.randint(1, 2))
+    lines, toks = [], []
+    for r in range(rng.randint(3, 8)):
+        n = rng.randint(2, 8)
+        tk = [rnd_token(rng) for _ in range(n)]
+        if rng.random() < 0.7:
+            w = rng.choice(words)
+            reps = rng.choice([1, 2, 2, 2, 3])
+            for pos in rng.sample(range(n), min(reps, n - 1)):
+                tk[pos] = rng.choice(nav_carriers(w))
+            if rng.random() < 0.6:
+                tk[0] = w
+        s = ''
+        if ws_ok and rng.random() < 0.2:
+            s += ' ' * rng.randint(1, 3)
+        for k, t in enumerate(tk):
+            if k:
+                s += rng.choice(pool)
+            s += t
+        lines.append(s + '\n')
+        toks.append(tk)
+    if rng.random() < 0.2:
+        lines[-1] = lines[-1].rstrip('\n')
+    return lines, toks, words
+
+
+def code_mark(lines, cur, anchored, a, occ):
+    """Row a `mark_anchor(a, occ)` call selects (None: not found): the n-th line containing the text,
+    counted forward from the current row (from the row after it when a previous anchor is set) or
+    backward from the end of the file (from the line before the last one when a previous anchor is
+    set) — the behaviour of both classes characterised by C29_anchor_forward / C29_anchor_backward."""
+    hit = [a in ln for ln in lines]
+    if occ > 0:
+        rows = [r for r in range(cur + (1 if anchored else 0), len(lines)) if hit[r]]
+        return rows[occ - 1] if occ <= len(rows) else None
+    last = len(lines) - (1 if anchored else 0)
+    rows = [r for r in range(last - 1, -1, -1) if hit[r]]
+    return rows[-occ - 1] if -occ <= len(rows) else None
+
+
 class C29(Property):
     pid = 'C29'
     level = 'proof'
@@ -302,7 +356,11 @@ class C29(Property):
             "value written to 16 significant digits; every other field, the number of lines and of "
             "fields per line unchanged, all through the real parser); 'free' cases (arbitrary "
             "coordinates, occurrences 0 / out of range, negative rows, empty ranges, error branches) are "
-            "compared with the Lean model only; one 'table' case ties the special-token table. Every "
+            "compared with the Lean model only; one 'table' case ties the special-token table; "
+            "'navigation' cases (60 at the head of the quick stream, 8% afterwards) use templates in "
+            "which the anchor text occurs several times within a line and inside other words, and "
+            "replay on both tools chains of 1-3 forward/backward mark_anchor calls with occurrence "
+            "counts, mostly without reset_anchor, each followed by a write/read relative to the anchor. Every "
             "case is also run through the Lean model: generated file text compared byte for byte, "
             "every value read compared, exceptions compared as an enum, _getformat compared on every "
             "float. Non-trivial: valid case with at least one intended cell, or free case whose output "
@@ -384,13 +442,92 @@ class C29(Property):
     def cases(self, rng, tier):
         n = 1200 if tier == 'quick' else 40000
         yield self.table_case()
+        # navigation cases first: repeated anchors, chains of mark_anchor calls without reset
+        for k in range(60 if tier == 'quick' else 600):
+            c = self.nav_case(rng)
+            if c is not None:
+                yield c
         for k in range(n):
-            if rng.random() < 0.7:
+            r = rng.random()
+            if r < 0.08:
+                c = self.nav_case(rng)
+            elif r < 0.72:
                 c = self.valid_case(rng)
             else:
                 c = self.free_case(rng)
             if c is not None:
                 yield c
+
+    def nav_case(self, rng):
+        """Generator and parser replay the same chain of forward / backward mark_anchor calls (with
+        occurrence counts, mostly without reset_anchor) over a template in which the anchor text
+        repeats within lines and inside other words; after every chain one value (or a one-row
+        array) is written relative to the anchor and read back from the same place."""
+        dg = rng.choice(DELIMS)
+        lines, toks, words = build_nav_template(rng, dg)
+        nl = len(lines)
+        case = {'kind': 'valid', 'dg': dg, 'dp': dg, 'lines': lines, 'gen': [], 'par': [],
+                'written': {}, 'reads': {}, 'special': None, 'extra': {}, 'nav': True}
+        anchors = list(words)
+        for w in words:
+            anchors += NAV_SHORT[w]
+        cur, anchored = 0, False
+        used = set()
+
+        def plain(t):
+            return not any(w in t for w in NAV_BASE)
+
+        for _ in range(rng.randint(2, 4)):
+            steps = []
+            c2, a2 = cur, anchored
+            if rng.random() < 0.2:
+                steps.append({'s': 'reset'})
+                c2, a2 = 0, False
+            for _ in range(rng.choice([1, 1, 2, 2, 3])):
+                for _try in range(6):
+                    a = rng.choice(anchors)
+                    occ = rng.choice([1, 1, 1, 1, 2, 2, 3, -1, -1, -2])
+                    row = code_mark(lines, c2, a2, a, occ)
+                    if row is not None:
+                        steps.append({'s': 'mark', 'a': a, 'occ': occ})
+                        c2, a2 = row, True
+                        break
+            if not any(st['s'] == 'mark' for st in steps):
+                continue
+            # a target relative to the anchor row
+            cand = [(r, f) for r in range(nl) for f in range(1, len(toks[r]) + 1)
+                    if plain(toks[r][f - 1]) and (r, f) not in used]
+            if not cand:
+                break
+            near = [c for c in cand if abs(c[0] - c2) <= 1]
+            r, f = rng.choice(near if near and rng.random() < 0.7 else cand)
+            if rng.random() < 0.75:
+                v = rnd_value(rng)
+                g = {'s': 'var', 'v': v, 'row': r - c2, 'field': f}
+                p = {'s': 'var', 'row': r - c2, 'field': f}
+                cells = [(r, f, v)]
+            else:
+                f2 = f
+                while f2 + 1 <= len(toks[r]) and plain(toks[r][f2]) and (r, f2 + 1) not in used \
+                        and rng.random() < 0.6:
+                    f2 += 1
+                vk = rng.choice(['f', 'i', 's'])
+                vals = [rnd_value(rng, vk) for _ in range(f, f2 + 1)]
+                d = ' ' if dg is None else dg
+                g = {'s': 'arr', 'vals': vals, 'rs': r - c2, 'fs': f, 'fe': f2, 're': None,
+                     'sep': d[0], 'np': rng.random() < 0.7}
+                p = {'s': 'arr', 'rs': r - c2, 'fs': f, 're': None, 'fe': f2}
+                cells = [(r, f + k, vals[k]) for k in range(len(vals))]
+            case['gen'] += steps + [g]
+            case['par'] += steps + [p]
+            case['reads'][str(len(case['par']) - 1)] = [[q, h] for q, h, _ in cells]
+            for q, h, v in cells:
+                case['written']['%d,%d' % (q, h)] = v
+                used.add((q, h))
+            cur, anchored = c2, a2
+        if not case['written']:
+            return None
+        return case
 
     def prelude(self, rng, toks, cur, anchored):
         """An anchor prelude whose documented meaning is unambiguous. Returns (steps, cur, anchored)."""
@@ -872,6 +1009,12 @@ class C29(Property):
              'gen_error=%s' % impl['gen_err'] if 'gen_err' in impl else 'gen_ok']
         if case.get('special'):
             b.append('special=' + case['special'])
+        if case.get('nav'):
+            b.append('nav_case')
+            nm = sum(1 for st in case['gen'] if st['s'] == 'mark')
+            b.append('nav_marks=%d' % min(nm, 6))
+            if any(sum(ln.count(w) for w in NAV_BASE) >= 2 for ln in case['lines']):
+                b.append('nav_anchor_repeats_in_line')
         for st in case['gen']:
             s = st['s']
             if s == 'mark':
